@@ -12,6 +12,7 @@ import Gpc.Driver.TestFw
 import Gpc.Driver.Printf
 import Gpc.Driver.CaseFull
 import Gpc.Driver.FileIO
+import Gpc.Driver.Generic
 open Gpc.Proto
 
 /-- state of the stateful models (one operation script at a time) -/
@@ -36,6 +37,7 @@ def dispatch (st : St) (toks : List String) : St × String :=
   | "pf" :: rest => (st, Gpc.Driver.pfStep rest)
   | "cf" :: rest => (st, Gpc.Driver.cfStep rest)
   | "fio" :: rest => (st, Gpc.Driver.fioStep rest)
+  | "gm" :: rest => (st, Gpc.Driver.gmStep rest)
   | "case" :: rest => (st, Gpc.Driver.caseStep rest)
   | "str" :: rest => let (a, o) := Gpc.Driver.strStep st.str rest; ({ st with str := a }, o)
   | _ => (st, "bad-op")
